@@ -76,7 +76,7 @@ def parse_terse(out):
     return res
 
 
-IGNORED_CHECK_PREFIXES = ("NaN on ",)   # counted only where finiteness is the contract (asserted explicitly)
+IGNORED_CHECK_PREFIXES = ("NaN on ", "attempt to compute simd_")   # simd_* "overflow": Kani applies its integer-overflow check to FLOAT vector adds/muls (stdarch _mm_add_ps); palette has no integer SIMD   # counted only where finiteness is the contract (asserted explicitly)
 
 
 def relevant_failures(failed_checks):
@@ -119,7 +119,7 @@ def kani_cmd(harnesses, jobs=None, playback=False, timeout_s=None, extra=()):
     cmd = ["cargo", "kani", "--target-dir", KANI_TARGET, "--exact"]
     for h in harnesses:
         cmd += ["--harness", h]
-    cmd += ["-Z", "unstable-options"]
+    cmd += ["-Z", "unstable-options", "-Z", "stubbing"]
     if timeout_s:
         cmd += ["--harness-timeout", "%ds" % timeout_s]
     if playback:
